@@ -204,7 +204,7 @@ def kill9(chk, top):
     cfgp = os.path.join(top, "mirror.list")
     code = f'''
 import sys, time
-sys.path.insert(0, "/repo")
+sys.path.insert(0, {os.environ.get("VERIF_REPO", "/repo")!r})
 import os
 os.environ["APT_MIRROR_LOGLEVEL"] = "critical"
 from pathlib import Path
@@ -237,7 +237,99 @@ print("DONE", flush=True)
     chk.coverage_extra["kill9_lock_file_left_behind"] = lock_left
 
 
+LOSER_CODE = '''
+import sys
+sys.path.insert(0, {repo!r})
+import os
+os.environ["APT_MIRROR_LOGLEVEL"] = "critical"
+import apt_mirror.apt_mirror as am
+sys.argv = ["apt-mirror", {cfg!r}]
+sys.exit(am.main())
+'''
+
+
+def protected_state(sb):
+    """everything a losing instance must leave alone: skel, mirror and the clean scripts (entries with type, size, inode,
+    mtime; directories with their mtime, so that a file created and removed again is noticed as well)"""
+    out = {}
+    for root in (sb.skel, sb.mirror):
+        for dp, dns, fns in os.walk(root):
+            for n in dns + fns:
+                p = os.path.join(dp, n)
+                try:
+                    st = os.lstat(p)
+                except FileNotFoundError:
+                    continue
+                out[os.path.relpath(p, sb.base)] = (st.st_mode, st.st_size if not os.path.isdir(p) else 0, st.st_ino, st.st_mtime_ns)
+    for n in sorted(os.listdir(sb.var)) if os.path.isdir(sb.var) else []:
+        if n.endswith(".sh"):
+            st = os.lstat(os.path.join(sb.var, n))
+            out["var/" + n] = (st.st_mode, st.st_size, st.st_ino, st.st_mtime_ns)
+    return out
+
+
+def loser_whole_run(chk, sseed):
+    """a real second process (`main()` on the same configuration) is started while the in-process holder is in the middle of
+    a real update run - at random mutations and inside the publish window - and must exit non-zero having changed nothing
+    under skel, mirror and the clean scripts; the holder must then finish as if nothing had happened"""
+    from core import vloop
+    from e2e import common, run_e2e, runner
+    rng = random.Random(sseed)
+    autoclean = rng.random() < 0.6
+    w = common.World(rng, rng.randint(1, 2), settings={"_autoclean": "1" if autoclean else "0"})
+    try:
+        res1 = w.run(chooser=vloop.RandomChooser(rng.randrange(1 << 30)))
+        if res1.exit != 0:
+            chk.evaluated(None)
+            chk.count("loser:skipped(first run failed)")
+            return
+        new = [common.evolve(rng, r) for r in w.repos]
+        stores2 = w.stores(new)
+        nev = max(2, len(res1.trace.events))
+        points = set(rng.sample(range(1, nev), min(2, nev - 1)))
+        window = [2]
+        launched = []
+        replay = {"scenario_seed": sseed, "lines": w.lines, "autoclean": autoclean}
+        code = LOSER_CODE.format(repo=os.environ.get("VERIF_REPO", "/repo"), cfg=w.sb.config_path)
+
+        def on_fs(idx, op, paths):
+            rel = os.path.relpath(paths[0], w.sb.base)
+            in_window = ".apt_mirror_" in rel and window[0] > 0 and rng.random() < 0.2
+            if idx not in points and not in_window:
+                return
+            if in_window:
+                window[0] -= 1
+            before = protected_state(w.sb)
+            try:
+                r = subprocess.run([sys.executable, "-c", code], capture_output=True, text=True, timeout=25)
+            except subprocess.TimeoutExpired:
+                chk.violation("loser-does-not-exit", dict(replay, at=[idx, op, rel]), "a second process started while the first is inside is still running after 25 s")
+                return
+            after = protected_state(w.sb)
+            launched.append((idx, op, rel, r.returncode))
+            if r.returncode == 0:
+                chk.violation("loser-exits-zero", dict(replay, at=[idx, op, rel]), "a second process run while the first is inside exits 0")
+            if before != after:
+                ch = sorted(k for k in set(before) | set(after) if before.get(k) != after.get(k))
+                kinds = "removed" if any(k not in after for k in ch) else ("created" if any(k not in before for k in ch) else "touched")
+                chk.violation("loser-modifies:" + kinds, dict(replay, at=[idx, op, rel]),
+                              f"the losing process (exit {r.returncode}) changed {ch[:4]} while the holder was before mutation {idx} ({op} {rel})")
+            chk.count("loser:processes_started")
+            chk.count("loser:in_publish_window", 1 if ".apt_mirror_" in rel else 0)
+
+        res2 = run_e2e.execute(w.sb, new, stores2, {}, vloop.RandomChooser(rng.randrange(1 << 30)), on_fs_event=on_fs)
+        if launched and res2.exit != 0:
+            chk.violation("holder-disturbed", replay, f"the holder's fault-free run exits {res2.exit} {res2.exception!r} after losing instances ran at {launched}")
+        chk.evaluated(("loser", tuple((op, ".apt_mirror_" in rel) for _, op, rel, _ in launched)) if launched else None,
+                      sample={"loser_runs": launched[:4], "holder_exit": res2.exit})
+        chk.traces += 1
+    finally:
+        w.destroy()
+
+
 def run(chk, tier, rng):
+    for i in range(4 if tier == "quick" else 60):
+        loser_whole_run(chk, f"C13w-{chk.seed}-{i}")
     top = fsutil.workdir("lock")
     cfgp = os.path.join(top, "mirror.list")
     with open(cfgp, "w") as fp:
@@ -284,6 +376,8 @@ def replay(rep):
     r = rep["replay"]
     if "schedule" in r:
         run_schedule(chk, config, r["n"], r["schedule"], "replay")
+    elif str(r.get("scenario_seed", "")).startswith("C13w-"):
+        loser_whole_run(chk, r["scenario_seed"])
     for sig, path, msg, _ in chk.violations:
         print(f"REPLAY VIOLATION {sig}: {msg}")
     return 1 if chk.violations else 0
